@@ -75,6 +75,16 @@ func TestC08FailedTx(t *testing.T) {
 			sim.Profile, candProfile = "vault", "hostile+vault"
 			rec.Label("traffic:vault")
 		}
+		if spec.WithRuntime && rapid.IntRange(0, 2).Draw(t, "rtMsgTraffic") == 0 {
+			// message-heavy histories: the runtime's incoming queue fills up, further SubmitMsg transactions fail late
+			if sim.Profile == "" {
+				sim.Profile = "rtmsgs"
+			} else {
+				sim.Profile += "+rtmsgs"
+			}
+			candProfile += "+rtmsgs"
+			rec.Label("traffic:rtmsgs")
+		}
 		if rapid.Bool().Draw(t, "govCandidates") {
 			// proposal-heavy candidates (parameter changes are validated by the module they concern, inside the transaction)
 			candProfile += "+gov"
